@@ -11,6 +11,7 @@ F_DEFAULT = "C16-default-policy-dangling"
 F_HALF = "C16-create-measurement-half-applied"
 F_RENAME = "C16-policy-rename-stale-key"
 F_PANIC = "C16-ptview-without-database-panics-on-node-join"
+F_WRAP = "C16-restore-wraps-early-group-start"
 
 
 # ------------------------------------------------------------------------------------------------ rendering
@@ -103,6 +104,8 @@ def cmd_coq(c):
         return "PruneIg %s" % coq_z(c.get("id", 0))
     if k == "cnode":
         return "CreateNode %s %s" % (coq_z(c.get("h", 0)), coq_z(c.get("t", 0)))
+    if k == "restore":
+        return "Restore"
     if k == "cptv":
         return "CreatePtView %s" % db
     if k == "uptinfo":
@@ -137,6 +140,17 @@ def classify(cs, f):
     """Returns the id of the known-finding signature a direct-oracle failure falls under, or None."""
     k, d, step = f["kind"], f["detail"], f["step"]
     cmd = cs["cmds"][step]
+    if k in ("empty-span", "unaligned", "unsorted", "overlap"):
+        # a group that started below -2^63 ns went through a snapshot/restore: find the restore step at which the groups named
+        # by this failure changed their start
+        gids = {d.get(x) for x in ("g", "g1", "g2")} - {None}
+        def starts(dump):
+            return {str(g["id"]): int(g["start"]) for db in dump["dbs"] for rp in db["rps"] for g in rp["sgs"]}
+        for i in range(1, step + 1):
+            if cs["cmds"][i]["k"] == "restore":
+                a, b = starts(cs["dumps"][i - 1]), starts(cs["dumps"][i])
+                if any(g in a and a[g] < -2**63 and b.get(g) != a[g] for g in gids):
+                    return F_WRAP
     if k == "overlap":
         # two live groups of one policy and engine type created under different shard-group durations
         if d["dur1"] != d["dur2"]:
@@ -171,6 +185,10 @@ def setup():
 
 
 def main(ck):
+    # entries of the committed per-property fragment that have not been merged into known_findings.json yet (read-only)
+    frag = os.path.join(ck.verif, "props", PID, "findings.json")
+    have = {f["id"] for f in ck.findings}
+    ck.findings += [f for f in json.load(open(frag))["findings"] if f["property"] == PID and f["id"] not in have]
     ck.assumptions += [
         "instants of CreateShardGroup lie in [models.MinNanoTime, models.MaxNanoTime] (the database's time domain); Go time.Time "
         "arithmetic (Truncate anchored at year 1, Add) is exact integer arithmetic there",
@@ -316,7 +334,7 @@ def main(ck):
                             {"cmds": cases[i]["cmds"][:k + 1]}, "step": k, "first_differences": {n: [cases[a]["name"], b] for n, (a, b) in first_bad.items()},
                             "explanation": "model and implementation states differ after this command; the direct oracle found no "
                             "violation of the statement outside the known findings"}
-    for fid in (F_OVERLAP, F_DEFAULT, F_HALF, F_RENAME, F_PANIC):
+    for fid in (F_OVERLAP, F_DEFAULT, F_HALF, F_RENAME, F_PANIC, F_WRAP):
         if ck.match_finding(fid) and fid not in reported and not getattr(ck, "replay", None):
             ck.notes.append("open finding %s did not reproduce in this run (stale?)" % fid)
 
